@@ -42,6 +42,16 @@ theorem splitSlash_ne_nil (s : Bytes) : splitSlash s ≠ [] := by
   | nil => simp [splitSlash]
   | cons c cs => unfold splitSlash; split; simp; split <;> simp
 
+/-- splitting at an explicit separator -/
+theorem splitSlash_append (x y : Bytes) :
+    splitSlash (x ++ slash :: y) = splitSlash x ++ splitSlash y := by
+  induction x with
+  | nil => simp [splitSlash]
+  | cons v vs ih =>
+    obtain ⟨m, ms, hm⟩ := List.exists_cons_of_ne_nil (splitSlash_ne_nil vs)
+    simp only [List.cons_append, splitSlash, ih, hm]
+    by_cases hv : v = slash <;> simp [hv]
+
 /-- every component of a path is a substring of it -/
 theorem component_is_substring (s c : Bytes) (h : c ∈ splitSlash s) : ∃ a b, s = a ++ c ++ b := by
   induction s generalizing c with
